@@ -178,6 +178,14 @@ theorem step_exact (c : Cfg) (hm : MulOK c) (hd : DivOK c) (op : Op) (hc : Typed
       obtain ⟨rfl, rfl⟩ := hspec
       exact ⟨s, by simp [step, cmpWord_spec s rel x h hx, bind, Except.bind, pure, Except.pure], h, rfl, rfl⟩
     · exact absurd hspec (by simp)
+  | rcmp rel x =>
+    simp only [specStep] at hspec
+    split at hspec
+    · rename_i hx
+      simp only [Option.some.injEq, Prod.mk.injEq] at hspec
+      obtain ⟨rfl, rfl⟩ := hspec
+      exact ⟨s, by simp [step, rcmpWord_spec s rel x h hx, bind, Except.bind, pure, Except.pure], h, rfl, rfl⟩
+    · exact absurd hspec (by simp)
   | isBig =>
     simp only [specStep, Option.some.injEq, Prod.mk.injEq] at hspec
     obtain ⟨rfl, rfl⟩ := hspec
